@@ -32,7 +32,7 @@ type Blk struct {
 	Data []byte
 }
 
-var AllKinds = []string{"raw", "cbor", "pb", "v0", "s512", "sha1", "t20", "t16", "dbl", "shasha", "id", "idsha", "idj"}
+var AllKinds = []string{"raw", "cbor", "pb", "v0", "s512", "sha1", "t20", "t16", "dbl", "shasha", "id", "idsha", "idj", "b364"}
 
 func xbytes(seed uint64, size int) []byte {
 	return NewRng(seed*0x100000001b3 + uint64(size)*7919 + 1).Bytes(size)
@@ -92,6 +92,9 @@ func MakeBlock(s BlkSpec) Blk {
 	case "idj":
 		// an inline dag-json node: an identity CID whose codec (0x0129) takes two varint bytes
 		c = cid.NewCidV1(0x0129, sum(x, mh.IDENTITY, -1))
+	case "b364":
+		// a variable-length hash function asked for more than its default output (blake3, 64 bytes)
+		c = cid.NewCidV1(cid.Raw, sum(x, mh.BLAKE3, 64))
 	case "idp":
 		// inline blocks that look alike: equal length, a long common prefix (not in AllKinds; used by
 		// generator classes that want digests of one width that agree in their leading bytes)
@@ -190,7 +193,7 @@ func GenSpec(r *Rng, seedPool int, big bool) BlkSpec {
 	if kind == "id" || kind == "idj" {
 		// identity CIDs: empty, short, long enough to exceed a 40-byte index CID limit, and around the
 		// default index CID limit of 2048 bytes (the CID is 5 bytes longer than the inline data)
-		size = Pick(r, []int{0, 3, 20, 60, 100, 0, 3, 20, 60, 2041, 2043, 2044})
+		size = Pick(r, []int{0, 3, 20, 60, 100, 0, 3, 20, 60, 2041, 2043, 2044, 2060, 3000})
 	} else if kind != "idsha" && kind != "shasha" && r.Chance(1, 14) {
 		// a section (CID + data) whose length sits on a power of two +-1: the sizes of buffers and pages
 		cl := MakeBlock(BlkSpec{Kind: kind, Seed: 1, Size: 1}).Cid.ByteLen()
